@@ -119,4 +119,12 @@ CHECKS = {
    note="Trusted: z3; SRegex (validated against re), int()/case-mapping models (validated against CPython), codec models (C12); digest "
         "stub 'original digest iff parsed settings equal the original' (collision-free assumption). Open known findings: lenient "
         "base64 fields and the django_des_crypt salt tail (known_findings.txt). Outside: multi-edit corruptions."),
+ "C07": dict(engine="E1-zshadow", category="other", design_ref="DESIGN.md §4 C07",
+   technique="path exploration of the real from_string/to_string on hash text with symbolic characters (SRegex, int() model, instrumented formatting) + z3",
+   text="(1) every valid hash string with one arbitrary code point per position: whenever from_string accepts, to_string() reproduces the "
+        "text or its documented canonical form (hex case, padding-bit repair); (2) instances with 3-4 symbolic salt characters of the "
+        "hasher's alphabet at boundary costs render to a string that parses back to the same salt/cost/ident/digest and re-renders "
+        "identically; (3) libpass inspectors: inspect(as_str(info)) == info for symbolic salt/digest characters.",
+   note="Trusted: z3 and the C08 environment models. Symbolic cost values are replaced by boundary values (rendering + re-parsing a "
+        "symbolic integer is not decided). Some hashers remain inconclusive in the symbolic part (listed in the evidence)."),
 }
